@@ -40,8 +40,9 @@ inductive Conv where
   | direct                                  -- IDENTICAL, TAB_INTP, TAB_NOINTP, TAB_VERB
   deriving Repr
 
-/-- `calc_compu_method_limits`. `none`: the Rust code divides by zero here (`b = 0` in the linear RAT_FUNC case),
-    producing IEEE infinities/NaN, which the rational model does not represent. -/
+/-- `calc_compu_method_limits`. The linear case of RAT_FUNC needs `b ≠ 0` to be inverted; with `b = 0` the conversion is
+    not evaluated (before fix 4 of this session - DESIGN 9.4 - the Rust code divided by zero there and reported a limit
+    error with NaN limits for every declared pair). The result is always `some`; the type is kept for the statements. -/
 def calcLimits (conv : Conv) (dt : DataType) : Option (Rat × Rat) :=
   let (lo, hi) := datatypeLimits dt
   match conv with
@@ -56,13 +57,11 @@ def calcLimits (conv : Conv) (dt : DataType) : Option (Rat × Rat) :=
       some (a * hi + b, newUpper)
   | .ratFunc none => some (lo, hi)
   | .ratFunc (some (a, b, c, d, e, f)) =>
-    if a = 0 ∧ d = 0 ∧ e = 0 ∧ f ≠ 0 then
-      if b = 0 then none
-      else
-        let func := fun (y : Rat) => f * (y / b) - c / b
-        let l := func lo
-        let u := func hi
-        if l > u then some (u, l) else some (l, u)
+    if a = 0 ∧ d = 0 ∧ e = 0 ∧ f ≠ 0 ∧ b ≠ 0 then
+      let func := fun (y : Rat) => f * (y / b) - c / b
+      let l := func lo
+      let u := func hi
+      if l > u then some (u, l) else some (l, u)
     else some (-maxF64, maxF64)
 
 def ratAbs (x : Rat) : Rat := if x < 0 then -x else x
